@@ -497,6 +497,11 @@ impl Prop for C19 {
             }
         }
         let trace = trace_pre;
+        // Testing aid, see above.
+        let skip = std::env::var("JIFFSIM_SKIP_CLAUSES").unwrap_or_default();
+        if !skip.is_empty() {
+            violations.retain(|v| !skip.split(',').any(|c| c == v.clause));
+        }
         Outcome {
             fingerprint,
             nontrivial: landed || overlap,
